@@ -85,7 +85,7 @@ func defaultConfig(module string) *interp.Config {
 			module, module + "/...",
 			"io", "errors", "context", "sort", "strconv", "math", "bytes", "strings", "unicode/utf8", "container/heap",
 			"github.com/grailbio/base/errors", "github.com/grailbio/base/retry", "github.com/grailbio/base/backgroundcontext",
-			"github.com/grailbio/base/data", "golang.org/x/sync/errgroup", "github.com/grailbio/bigmachine",
+			"github.com/grailbio/base/data", "golang.org/x/sync/errgroup",
 		},
 	}
 }
